@@ -204,6 +204,22 @@ func (p *IdentityProvider) ssoHandleFunc(w http.ResponseWriter, r *http.Request)
 		},
 	)
 
+	// verify that the response can be sent with the chosen binding before anything is persisted
+	checkerInstance.WithLogicStep(
+		func() error {
+			switch response.ProtocolBinding {
+			case RedirectBinding, PostBinding:
+				return nil
+			default:
+				err = fmt.Errorf("unsupported binding: %s", response.ProtocolBinding)
+				return err
+			}
+		},
+		func() {
+			response.sendBackResponse(r, w, response.makeFailedResponse(StatusCodeUnsupportedBinding, err.Error(), p.TimeFormat))
+		},
+	)
+
 	// persist authrequest
 	checkerInstance.WithLogicStep(
 		func() error {
@@ -227,14 +243,7 @@ func (p *IdentityProvider) ssoHandleFunc(w http.ResponseWriter, r *http.Request)
 		return
 	}
 
-	switch response.ProtocolBinding {
-	case RedirectBinding, PostBinding:
-		http.Redirect(w, r, sp.LoginURL(authRequest.GetID()), http.StatusSeeOther)
-	default:
-		logging.Error(err)
-		response.sendBackResponse(r, w, response.makeFailedResponse(StatusCodeUnsupportedBinding, fmt.Errorf("unsupported binding: %s", response.ProtocolBinding).Error(), p.TimeFormat))
-	}
-	return
+	http.Redirect(w, r, sp.LoginURL(authRequest.GetID()), http.StatusSeeOther)
 }
 
 func getAuthRequestFromRequest(r *http.Request) (*AuthRequestForm, error) {
